@@ -287,6 +287,12 @@ def bi_bytes(lib, ctx, x=None, *a):
         return BytesV(x.arr, x.length, mutable=False, view=x.view, concrete=x.concrete)
     if isinstance(x, V.PyList):
         return list_to_bytes(lib, ctx, x.items, False)
+    if isinstance(x, V.Opaque) and x.what.startswith("container built in a loop"):
+        # ASSUMED: the list holds integers; bytes() raises ValueError unless all of them are in 0..255
+        if ctx.choose(2) == 1:
+            raise lib.raise_ext("ValueError", "bytes must be in range(0, 256)")
+        kind = V.Bytes
+        return ctx.fresh_kind("bytes_of_list", kind)
     raise EngineLimit("bytes(%r)" % (x,))
 
 
